@@ -14,19 +14,29 @@
      partition_choice          partition not the configured partitioner's choice over the configured count
      sync_return_partition     SendMessage returned another partition than the one chosen
      checker_called            the checker of the taken expectation was not run exactly once on the message
-     deviation_not_reported / unexpected_report   ErrorReporter calls (bag of deviation kinds)
+     deviation_not_reported / unexpected_report / report_arguments   ErrorReporter calls (see below)
    Consumer clauses
      consume_result (unexpected / already consumed partition), consecutive_offsets, message_partition
      (yielded message stamped with the partition consumer's topic/partition), yield_order, error_order,
      high_water_mark,
-     deviation_not_reported / unexpected_report
-   no_hang_or_panic          the mock hung or panicked                                           *)
+     deviation_not_reported / unexpected_report / report_arguments
+   no_hang_or_panic          the mock hung or panicked
+
+   ErrorReporter calls are judged structurally, never by their wording: E.rep holds, for the step
+   E of the scripted run, one tuple per Errorf call the mock made DURING that step (= the values of
+   the call's arguments).  The oracle knows from the situation (what was scripted vs what was
+   called) how many reports the step must produce and which deviation each is:
+     deviation_not_reported   fewer calls than deviations in this step
+     unexpected_report        more calls than deviations in this step
+     report_arguments         as many calls as deviations and as many argument values as the
+                              situation has (topic / partition / offsets / counts / checker error),
+                              but other values                                                    *)
 EXTENDS MocksOracle, Json
 
 Trace == ndJsonDeserialize("trace.ndjson")
 
-VARIABLES l, viol, cf, ps, pm, obs, repE, repO, lastOff, cs, cb, st
-vars == <<l, viol, cf, ps, pm, obs, repE, repO, lastOff, cs, cb, st>>
+VARIABLES l, viol, cf, ps, pm, obs, lastOff, cs, cb, st
+vars == <<l, viol, cf, ps, pm, obs, lastOff, cs, cb, st>>
 
 E == Trace[l]
 V(i, c) == {<<E.t, i, c>>}
@@ -36,7 +46,7 @@ Cf0 == [mode |-> "-", pk |-> "rr", np |-> [ta |-> 1, tb |-> 1], rets |-> TRUE, q
 Cb0 == [p \in CParts |-> 0]     \* offset before the first message yielded on p, as observed
 St0 == [cases |-> 0, sends |-> 0, batches |-> 0, csends |-> 0, cops |-> 0, closes |-> 0, outcomes |-> 0, reports |-> 0]
 Init == /\ l = 1 /\ viol = {} /\ cf = Cf0 /\ ps = PInit0(0) /\ pm = <<>> /\ obs = <<>>
-        /\ repE = <<>> /\ repO = <<>> /\ lastOff = 0 /\ cs = CInit /\ cb = Cb0 /\ st = St0
+        /\ lastOff = 0 /\ cs = CInit /\ cb = Cb0 /\ st = St0
 
 Get(f, k, d) == IF k \in DOMAIN f THEN f[k] ELSE d
 Put(f, k, v) == (k :> v) @@ f
@@ -50,10 +60,15 @@ RECURSIVE AddObs(_, _)
 AddObs(f, outs) == IF outs = <<>> THEN f
                    ELSE AddObs(Put(f, OMid(Head(outs)), Append(Get(f, OMid(Head(outs)), <<>>), Head(outs))), Tail(outs))
 
-\* bag comparison of reporter calls
-BagLeq(a, b) == LET A == BagOf(a) B == BagOf(b) IN \A x \in DOMAIN A : x \in DOMAIN B /\ A[x] <= B[x]
-RepClauses(i, exp, got) ==
-  When(~BagLeq(exp, got), i, "deviation_not_reported") \cup When(~BagLeq(got, exp), i, "unexpected_report")
+\* reporter calls of one step: want = the argument tuples of the deviations the oracle expects in
+\* this step (one per deviation), got = the argument tuples of the calls the mock made (E.rep)
+RECURSIVE FlatArgs(_)
+FlatArgs(ss) == IF ss = <<>> THEN <<>> ELSE Head(ss) \o FlatArgs(Tail(ss))
+RepClauses(i, want, got) ==
+  When(Len(got) < Len(want), i, "deviation_not_reported")
+  \cup When(Len(got) > Len(want), i, "unexpected_report")
+  \cup When(Len(got) = Len(want) /\ Len(FlatArgs(got)) = Len(FlatArgs(want)) /\ BagOf(FlatArgs(got)) # BagOf(FlatArgs(want)),
+            i, "report_arguments")
 
 \* success offsets of a list of observed outcomes must continue to increase after `from`
 RECURSIVE OffViol(_, _, _)
@@ -77,7 +92,8 @@ StepSend(acc, m, pobs, mp, chk, i) ==
       wantchk == IF r.took # 0 /\ HasChecker(r.ekind) THEN <<r.took>> ELSE <<>>
   IN [ps |-> r.ps,
       pm |-> Put(acc.pm, m.mid, [i |-> i, took |-> r.took, ekind |-> r.ekind, exp |-> r.outs, p |-> p]),
-      repE |-> acc.repE \o r.rep,
+      \* a report in this situation is "no expectation" (no arguments) or the failing checker (its error)
+      repE |-> acc.repE \o [k \in DOMAIN r.rep |-> IF r.rep[k] = "checker" THEN <<ErrId("c", r.took)>> ELSE <<>>],
       v |-> acc.v \cup When(r.took # 0 /\ (mp \notin al \/ (pobs # -1 /\ pobs \notin al)), i, "partition_choice")
                  \cup When(chk # wantchk, i, "checker_called")]
 
@@ -101,7 +117,7 @@ ExpectAll(s, kinds) == IF kinds = <<>> THEN s ELSE ExpectAll(PExpect(s, Head(kin
 TReset ==
   /\ E.ev = "reset"
   /\ cf' = [mode |-> E.mode, pk |-> E.pk, np |-> [ta |-> E.npa, tb |-> E.npd], rets |-> E.rets, quirks |-> FALSE]
-  /\ ps' = ExpectAll(PInit0(E.npa), E.script) /\ pm' = <<>> /\ obs' = <<>> /\ repE' = <<>> /\ repO' = <<>> /\ lastOff' = 0 /\ cs' = CInit /\ cb' = Cb0
+  /\ ps' = ExpectAll(PInit0(E.npa), E.script) /\ pm' = <<>> /\ obs' = <<>> /\ lastOff' = 0 /\ cs' = CInit /\ cb' = Cb0
   /\ st' = [st EXCEPT !.cases = @ + 1]
   \* the violations of the previous case are printed and dropped (keeps the observer's state small)
   /\ (viol # {}) => PrintT(<<"VIOL", ToJson(viol)>>)
@@ -110,22 +126,21 @@ TReset ==
 TExpect ==
   /\ E.ev = "expect"
   /\ ps' = PExpect(ps, E.kind)
-  /\ UNCHANGED <<viol, cf, pm, obs, repE, repO, lastOff, cs, cb, st>>
+  /\ UNCHANGED <<viol, cf, pm, obs, lastOff, cs, cb, st>>
 
 \* TopicConfig.SetPartitions(map[string]int32{E.topic: E.n}) on the mock
 TSetParts ==
   /\ E.ev = "setparts"
   /\ ps' = PSetParts(ps, E.topic, E.n)
-  /\ UNCHANGED <<viol, cf, pm, obs, repE, repO, lastOff, cs, cb, st>>
+  /\ UNCHANGED <<viol, cf, pm, obs, lastOff, cs, cb, st>>
 
 TSend ==
   /\ E.ev = "send"
   /\ LET m == [mid |-> E.mid, topic |-> E.topic, key |-> E.key, mpart |-> E.mpart]
-         a == StepSend([ps |-> ps, pm |-> pm, repE |-> repE, v |-> {}], m, E.pcall[2], E.mp, E.chk, E.i)
-     IN /\ ps' = a.ps /\ pm' = a.pm /\ repE' = a.repE
-        /\ viol' = viol \cup a.v \cup OffViol(E.outs, lastOff, E.i) \cup Bad
+         a == StepSend([ps |-> ps, pm |-> pm, repE |-> <<>>, v |-> {}], m, E.pcall[2], E.mp, E.chk, E.i)
+     IN /\ ps' = a.ps /\ pm' = a.pm
+        /\ viol' = viol \cup a.v \cup OffViol(E.outs, lastOff, E.i) \cup Bad \cup RepClauses(E.i, a.repE, E.rep)
   /\ obs' = AddObs(obs, E.outs)
-  /\ repO' = repO \o E.rep
   /\ lastOff' = LastSucc(E.outs, lastOff)
   /\ st' = [st EXCEPT !.sends = @ + 1, !.outcomes = @ + Len(E.outs), !.reports = @ + Len(E.rep)]
   /\ UNCHANGED <<cf, cs, cb>>
@@ -136,13 +151,13 @@ TBatch ==
   /\ LET ms == [k \in DOMAIN E.msgs |-> [mid |-> E.msgs[k][1], topic |-> E.msgs[k][2], key |-> E.msgs[k][3], mpart |-> E.msgs[k][4]]]
          r == PBatch(cf, ps, ms, [k \in DOMAIN E.after |-> E.after[k][2]])
          succs == [k \in DOMAIN r.offs |-> <<E.after[k][1], IF r.offs[k] > 0 THEN "succ" ELSE "err", "-", E.after[k][3], E.after[k][2]>>]
+         \* "insufficient expectations" carries no argument, a failing checker its error (= the returned one)
+         want == [k \in DOMAIN r.rep |-> IF r.rep[k] = "checker" THEN <<r.err>> ELSE <<>>]
      IN /\ ps' = r.ps
-        /\ repE' = repE \o r.rep
-        /\ viol' = viol \cup When(E.ret # r.err, E.i, "fifo_outcome")
+        /\ viol' = viol \cup When(E.ret # r.err, E.i, "fifo_outcome") \cup RepClauses(E.i, want, E.rep)
                         \cup When(\E k \in DOMAIN r.parts : r.parts[k] # E.after[k][2], E.i, "partition_choice")
                         \cup OffViol(succs, lastOff, E.i) \cup Bad
         /\ lastOff' = LastSucc(succs, lastOff)
-  /\ repO' = repO \o E.rep
   /\ st' = [st EXCEPT !.batches = @ + 1, !.reports = @ + Len(E.rep)]
   /\ UNCHANGED <<cf, pm, obs, cs, cb>>
 
@@ -166,15 +181,14 @@ TCSend ==
   /\ E.ev = "csend"
   /\ LET inorder == {E.order[k][1] : k \in DOMAIN E.order}
          rest == SelectSeq([k \in DOMAIN E.msgs |-> E.msgs[k][1]], LAMBDA x : x \notin inorder)
-         a == FoldRest(FoldOrder([ps |-> ps, pm |-> pm, repE |-> repE, v |-> {}], E.order), rest)
+         a == FoldRest(FoldOrder([ps |-> ps, pm |-> pm, repE |-> <<>>, v |-> {}], E.order), rest)
          ordered == [k \in DOMAIN E.order |-> LET c == SelectSeq(E.outs, LAMBDA o : OMid(o) = E.order[k][1] /\ OKind(o) = "succ")
                                                IN IF c = <<>> THEN <<0, "none", "-", 0, 0>> ELSE c[1]]
-     IN /\ ps' = a.ps /\ pm' = a.pm /\ repE' = a.repE
-        /\ viol' = viol \cup a.v \cup OffViol(ordered, lastOff, E.i) \cup Bad
+     IN /\ ps' = a.ps /\ pm' = a.pm
+        /\ viol' = viol \cup a.v \cup OffViol(ordered, lastOff, E.i) \cup Bad \cup RepClauses(E.i, a.repE, E.rep)
                         \cup When(Len(E.order) # Cardinality(inorder), E.i, "fifo_outcome")
         /\ lastOff' = LastSucc(ordered, lastOff)
   /\ obs' = AddObs(obs, E.outs)
-  /\ repO' = repO \o E.rep
   /\ st' = [st EXCEPT !.csends = @ + 1, !.outcomes = @ + Len(E.outs), !.reports = @ + Len(E.rep)]
   /\ UNCHANGED <<cf, cs, cb>>
 
@@ -182,12 +196,12 @@ TClose ==
   /\ E.ev = "close"
   /\ LET r == PClose(ps)
          allobs == AddObs(obs, E.outs)
+         \* leftover expectations are reported once, with their number
+         want == IF r.rep = <<>> THEN <<>> ELSE <<<<ToString(Len(ps.exps))>>>>
      IN /\ ps' = r.ps
-        /\ repE' = repE \o r.rep
-        /\ repO' = repO \o E.rep
         /\ obs' = allobs
         /\ viol' = viol \cup Bad \cup OffViol(E.outs, lastOff, E.i)
-                        \cup RepClauses(E.i, repE \o r.rep, repO \o E.rep)
+                        \cup RepClauses(E.i, want, E.rep)
                         \cup UNION {MsgClauses(allobs, mid) : mid \in DOMAIN pm}
                         \cup When(\E mid \in DOMAIN allobs : mid \notin DOMAIN pm, E.i, "exactly_one_outcome")
   /\ lastOff' = LastSucc(E.outs, lastOff)
@@ -207,6 +221,18 @@ COp ==
     [] E.op = "asyncclose" -> CAsyncClose(cs, E.p)
     [] E.op = "closepc" -> CClosePC(cs, E.p)
     [] E.op = "closeall" -> CCloseAll(cs)
+\* the argument values of the consumer mock's deviations, from the situation before the step
+PStr(q) == ToString(q)
+CloseArgs(pc, q) ==
+  IF ~pc.consumed THEN <<<<"tc", PStr(q)>>>>                                        \* expected but never consumed
+  ELSE (IF pc.de /\ pc.eq # <<>> THEN <<<<"tc", PStr(q), ToString(Len(pc.eq))>>>> ELSE <<>>)     \* errors left
+       \o (IF pc.dm /\ pc.mq # <<>> THEN <<<<"tc", PStr(q), ToString(Len(pc.mq))>>>> ELSE <<>>)  \* messages left
+CWant(r) ==
+  CASE E.op = "consume" /\ r.rep = <<"unexpected_partition">> -> <<<<"tc", PStr(E.p)>>>>
+    [] E.op = "consume" /\ r.rep = <<"unexpected_offset">> -> <<<<"tc", PStr(E.p), ToString(cs[E.p].eoff), ToString(E.off)>>>>
+    [] E.op = "closepc" -> CloseArgs(cs[E.p], E.p)
+    [] E.op = "closeall" -> (IF cs[0].reg THEN CloseArgs(cs[0], 0) ELSE <<>>) \o (IF cs[1].reg THEN CloseArgs(cs[1], 1) ELSE <<>>)
+    [] OTHER -> <<>>
 TCop ==
   /\ E.ev = "cop"
   /\ LET r == COp
@@ -218,27 +244,24 @@ TCop ==
          hw(q) == IF r.cs[q].reg /\ r.cs[q].yields > 0 THEN (IF q = p THEN base ELSE cb[q]) + CHwm(r.cs[q]) ELSE -1
      IN /\ cs' = r.cs
         /\ cb' = IF first THEN [cb EXCEPT ![p] = base] ELSE cb
-        /\ repE' = repE \o r.rep
-        /\ viol' = viol \cup Bad
+        /\ viol' = viol \cup Bad \cup RepClauses(E.i, CWant(r), E.rep)
              \cup When(E.op = "consume" /\ E.ret # r.ret, E.i, "consume_result")
              \cup When(E.op = "yieldmsg" /\ E.val[2] # want[2], E.i, "consecutive_offsets")
              \cup When(E.op = "yieldmsg" /\ <<E.val[3], E.val[4]>> # <<want[3], want[4]>>, E.i, "message_partition")
              \cup When(E.op = "readmsg" /\ E.val # want, E.i, "yield_order")
              \cup When(E.op \in {"readerr", "closepc"} /\ E.errs # r.errs, E.i, "error_order")
              \cup When(\E q \in CParts : hw(q) # -1 /\ (E.hwm[q + 1] # hw(q) \/ E.hwms[q + 1] # hw(q)), E.i, "high_water_mark")
-  /\ repO' = repO \o E.rep
   /\ st' = [st EXCEPT !.cops = @ + 1, !.reports = @ + Len(E.rep)]
   /\ UNCHANGED <<cf, ps, pm, obs, lastOff>>
 
 TCend ==
   /\ E.ev = "cend"
-  /\ viol' = viol \cup RepClauses(E.i, repE, repO)
-  /\ UNCHANGED <<cf, ps, pm, obs, repE, repO, lastOff, cs, cb, st>>
+  /\ UNCHANGED <<viol, cf, ps, pm, obs, lastOff, cs, cb, st>>
 
 TEnd == /\ E.ev = "end"
         /\ PrintT(<<"VIOL", ToJson(viol)>>)
         /\ PrintT(<<"STATS", ToJson(st)>>)
-        /\ UNCHANGED <<viol, cf, ps, pm, obs, repE, repO, lastOff, cs, cb, st>>
+        /\ UNCHANGED <<viol, cf, ps, pm, obs, lastOff, cs, cb, st>>
 
 Next == /\ l <= Len(Trace)
         /\ l' = l + 1
